@@ -70,6 +70,8 @@ try:
                     fired[p] = [l.strip()[:300] for l in v]
                 elif o.returncode != 0:
                     fired[p] = ["CHECK ERROR exit %d: %s" % (o.returncode, (o.stdout + o.stderr)[-300:])]
+            if fired and all(ls and str(ls[0]).startswith("CHECK ERROR") for ls in fired.values()):
+                fired = {"error": "the tree does not build with the patch (needs a rebase): " + str(next(iter(fired.values()))[0])[-160:]}
             res[s] = fired
         finally:
             subprocess.run(["git", "-C", repo, "checkout", "--", "."], check=True)
